@@ -1212,7 +1212,7 @@ def check_C02(rep, prog, tier):
     def sel_judge(b):
         hl = {int(k): v for k, v in (b.get('headless') or {}).items()}
         sc = {'kind': 'select', 'bands': [{'band': i, 'state': 'closed' if b['closed'].get(i) else
-                                           {'no-head': 'nohead', 'empty-head': 'emptyhead'}.get(hl.get(i), 'open'), 'hunks': []} for i in b['ids']]}
+                                           {'no-head': 'nohead', 'empty-head': 'emptyhead', 'empty-tail': 'emptytail'}.get(hl.get(i), 'open'), 'hunks': []} for i in b['ids']]}
 
         def jf(out):
             want_closed = max([i for i in b['ids'] if b['closed'].get(i)], default=None)
